@@ -201,7 +201,7 @@ class C03(Check):
     ]
 
     def budget(self, tier, escalated):
-        n = 2500 if tier == 'quick' else 60000
+        n = 6000 if tier == 'quick' else 60000
         return n * (3 if escalated and tier == 'quick' else 1)
 
     def nontrivial(self, sample):
